@@ -12,12 +12,16 @@ import (
 	"sort"
 	"strconv"
 	"strings"
+	"sync"
 
 	"github.com/hashicorp/go-bexpr/grammar"
 	"github.com/mitchellh/pointerstructure"
 )
 
 var byteSliceTyp reflect.Type = reflect.TypeOf([]byte{})
+
+// convertedMu guards the lazily filled grammar.MatchValue.Converted caches
+var convertedMu sync.RWMutex
 
 func primitiveEqualityFn(kind reflect.Kind) func(first interface{}, second reflect.Value) bool {
 	switch kind {
@@ -81,16 +85,22 @@ func doMatchMatches(expression *grammar.MatchExpression, value reflect.Value) (b
 
 	var re *regexp.Regexp
 	var ok bool
+	// The compiled regular expression is cached on the shared syntax tree:
+	// guard it so that one Evaluator can be used by concurrent goroutines
+	convertedMu.RLock()
 	if expression.Value.Converted != nil {
 		re, ok = expression.Value.Converted.(*regexp.Regexp)
 	}
+	convertedMu.RUnlock()
 	if !ok || re == nil {
 		var err error
 		re, err = regexp.Compile(expression.Value.Raw)
 		if err != nil {
 			return false, fmt.Errorf("Failed to compile regular expression %q: %v", expression.Value.Raw, err)
 		}
+		convertedMu.Lock()
 		expression.Value.Converted = re
+		convertedMu.Unlock()
 	}
 
 	return re.Match(value.Convert(byteSliceTyp).Interface().([]byte)), nil
